@@ -37,9 +37,11 @@ def reach() -> None:
         raise Reached("assertion point reached")
 
 
-def require(cond, sig: str, detail: str = "") -> None:
+def require(cond, sig: str, detail="") -> None:
+    """`detail` may be a callable (evaluated only on failure -- formatting symbolic values is
+    expensive and forks paths)."""
     if not cond:
-        raise Violation(sig, detail)
+        raise Violation(sig, detail() if callable(detail) else detail)
 
 
 # --------------------------------------------------------------------------- config
